@@ -527,11 +527,11 @@ theorem C14_fmtfuncs_shape :
 
   `C14_full_statement` (above) is proved in Properties/C14Sound.lean (`C14_sound_complete`, and `C14_error_kind`:
   ValueError is the only exception).  Kept here as cheap independent evidence:
-  * `C14_error_kind_partial`: for ALL inputs the only exception `parse_args` can raise is ValueError
+  * `C14_error_kind_weak`: for ALL inputs the only exception `parse_args` can raise is ValueError
     (`otherException` is the model's own "dict not representable as `Atts`" outcome of `toAtts`; showing it
     unreachable needs the same invariant as the full statement: after the key loop and the two colour blocks
     every entry of the dict is a legal key with a legal value);
-  * `C14_sound_complete_bounded_partial`: the full statement (model = denotation, invalid => ValueError) for
+  * `C14_sound_complete_bounded`: the full statement (model = denotation, invalid => ValueError) for
     every specification with at most two positional arguments from `posReps` and at most two keyword
     arguments with distinct names from `kwReps` (valid and invalid names, colour names / numbers in and out of
     range, bool / float / None values, `style=` of each kind) - about 5000 specifications, by kernel evaluation.
@@ -592,7 +592,7 @@ theorem colourBlock_err (table : List (String × Nat)) (key : String) (kw : Kw) 
   repeat' split at h
   all_goals (first | (injection h with h; exact h.symm) | cases h)
 
-theorem C14_error_kind_partial (lower : String → String) (args : List ArgVal) (kw : Kw) (e : PyErr)
+theorem C14_error_kind_weak (lower : String → String) (args : List ArgVal) (kw : Kw) (e : PyErr)
     (h : parseArgs lower args kw = .error e) : e = .valueError ∨ e = .otherException := by
   unfold parseArgs parseTail at h
   repeat' split at h
@@ -614,7 +614,7 @@ def lists2 (l : List α) : List (List α) :=
   [[]] ++ l.map (fun a => [a]) ++ l.flatMap (fun a => l.map fun b => [a, b])
 def kwPool : List Kw := (lists2 kwReps).filter fun kw => (kw.map Prod.fst).Nodup
 
-theorem C14_sound_complete_bounded_partial :
+theorem C14_sound_complete_bounded :
     ∀ pos ∈ lists2 posReps, ∀ kw ∈ kwPool,
       (parseArgs idl pos kw).toOption = denote idl pos kw ∧
       (denote idl pos kw = none → parseArgs idl pos kw = .error .valueError) := by
